@@ -4,6 +4,7 @@ import (
 	"bytes"
 	"encoding/hex"
 	"fmt"
+	"io"
 	"runtime"
 	"sync"
 	"time"
@@ -35,6 +36,39 @@ func decodeCBEWithRules(doc []byte, cfg *configuration.Configuration) cbeOutcome
 	var out cbeOutcome
 	out.Panicked, out.Hung = runWithWatchdog(20*time.Second, func() {
 		out.Err = cbe.NewDecoder(cfg).DecodeDocument(doc, rules.NewRules(rec, cfg))
+	})
+	out.Evs = rec.Evs
+	return out
+}
+
+// shortReader hands its data out in pieces of 1..3 bytes (a pipe, a socket, bufio ...).
+type shortReader struct {
+	data []byte
+	n    int
+}
+
+func (r *shortReader) Read(p []byte) (int, error) {
+	if len(r.data) == 0 {
+		return 0, io.EOF
+	}
+	r.n++
+	k := 1 + r.n%3
+	if k > len(p) {
+		k = len(p)
+	}
+	if k > len(r.data) {
+		k = len(r.data)
+	}
+	copy(p, r.data[:k])
+	r.data = r.data[k:]
+	return k, nil
+}
+
+func decodeCBEStreamWithRules(doc []byte, cfg *configuration.Configuration) cbeOutcome {
+	rec := &Recorder{}
+	var out cbeOutcome
+	out.Panicked, out.Hung = runWithWatchdog(20*time.Second, func() {
+		out.Err = cbe.NewDecoder(cfg).Decode(&shortReader{data: doc}, rules.NewRules(rec, cfg))
 	})
 	out.Evs = rec.Evs
 	return out
@@ -95,7 +129,7 @@ func offsetCounters(m map[string]int) map[string]int {
 }
 
 func checkC01(c *Check) {
-	c.Rule = "TLC (RulesGen.tla, class-level alphabet AlphaDoc, filter FilterDoc) enumerates every complete document the validator model accepts up to the length bound (nesting of lists, maps, nodes, edges, record types/records, markers/references, every scalar kind, every array kind); each is concretised several times (integers on every width boundary in every event form, float classes built by construction, decimal floats, all time-zone forms, Unicode strings, typed arrays of lengths 0/1/15/16/17, arrays chunked and split at random byte positions) and driven rules -> cbe.Encoder -> bytes -> cbe.Decoder -> rules; NormCBE(in) must equal NormCBE(out). non-trivial = contains a container or an array; distinct = (abstract document, concretisation seed)"
+	c.Rule = "TLC (RulesGen.tla, class-level alphabet AlphaDoc, filter FilterDoc) enumerates every complete document the validator model accepts up to the length bound (nesting of lists, maps, nodes, edges, record types/records, markers/references, every scalar kind, every array kind); each is concretised several times (integers on every width boundary in every event form, float classes built by construction, decimal floats, all time-zone forms, Unicode strings, typed arrays of lengths 0/1/15/16/17, arrays chunked and split at random byte positions) and driven rules -> cbe.Encoder -> bytes -> cbe.Decoder -> rules; NormCBE(in) must equal NormCBE(out); the document delivered by a reader in pieces of 1-3 bytes must decode to the same events. non-trivial = contains a container or an array; distinct = (abstract document, concretisation seed)"
 	c.Assumptions = []string{"harness abs/concretiser/normaliser (abs.go, values.go, norm.go)", "TLC", "big binary floats that are not exact in float64 have no CBE binary form and are not generated (DESIGN 5.7)", "zero-valued times and OnNegativeInt(0) are not generated"}
 	maxLen, reps := 6, 2
 	if c.Tier == "thorough" {
@@ -135,6 +169,11 @@ func checkC01(c *Check) {
 				b = got[at]
 			}
 			c.Violation(fmt.Sprintf("CBE round trip changes the data at item %d: sent %s, got %s; stream: %s; document %x", at+1, a, b, evsString(evs), doc), wit)
+			return
+		}
+		// the same document delivered by a reader in pieces of one to three bytes
+		if so := decodeCBEStreamWithRules(doc, cfg); so.Err != nil || so.Panicked != nil || so.Hung || evsString(so.Evs) != evsString(out.Evs) {
+			c.Violation(fmt.Sprintf("CBE document %x decodes differently from a reader that delivers 1-3 bytes at a time: %v %v; events %s instead of %s", doc, so.Err, so.Panicked, evsString(so.Evs), evsString(out.Evs)), wit)
 			return
 		}
 		c.AddTraces(1)
